@@ -87,6 +87,65 @@ def run_history(case, hist, res=None, check_twice=False):
     return o, "ok", changed
 
 
+# (the harness' "obj" and "con" queries both go through impl_data, which asks size, objective and constraints)
+COPS = {"n": ["n"], "idx": ["n"], "tup": ["n"], "obj": ["n", "obj", "con"], "con": ["n", "obj", "con"], "qubo_o": ["con", "obj"], "qubo_f": ["con"]}
+
+
+def correspond_cache(res, drv, case):
+    """the Lean cache state machine (CObj.run) against the real object on the same call history: heuristic outcomes,
+    which caches are filled at the end, final instance and stored solution"""
+    form = case["form"]
+    if form not in ("arc", "seq"):
+        return
+    o, _ = FU.build_form(case, with_heur=False)
+    inst = FU.inst_tokens(o, form)
+    ops, outcomes = [], []
+    dead = False
+    for op in case["hist"]:
+        if dead:
+            break
+        if op[0] == "heur":
+            ops.append(f"heur {op[1]}")
+            try:
+                o.make_feasible(VU.val(op[1]))
+                outcomes.append("done")
+            except Exception as e:  # noqa
+                outcomes.append("raised " + core.err_kind(e))
+                dead = True
+        elif op[0] == "routes":
+            if o.feasible_solution is not None:
+                ops.append("n")
+                query(o, form, "routes")
+        else:
+            ops += COPS[op[0]]
+            query(o, form, op[0])
+    rep = drv.ask(f"cache.{form} {inst} {len(ops)} {' '.join(ops)}")
+    parts = [p.strip() for p in rep[3:].split(" | ")]
+    k = next(i for i, p in enumerate(parts) if p.startswith("flags "))
+    m_out = [p for p in parts[:k] if p == "done" or p.startswith("raised")]
+    if m_out != outcomes:
+        res.disagree(f"{form} heuristic outcomes along the history", outcomes, m_out)
+        return
+    if dead:
+        return
+    fl = parts[k].split()[1:]
+    if form == "arc":
+        impl_flags = [o.variables_enumerated, o.objective_built, o.constraints_built]
+    else:
+        impl_flags = [o.variables_enumerated, o.objective_built, o.lin_con_built and o.quad_con_built]
+    if [str(int(bool(x))) for x in impl_flags] != fl[:3]:
+        res.disagree(f"{form} cache flags (enumerated, objective, constraints) after the history", impl_flags, fl[:3])
+    mg = MU.parse_graph(MU.Toks(parts[k + 1].split()))
+    g = VU.graph_of(o)
+    if (g["nodes"], g["arcs"]) != (mg["nodes"], mg["arcs"]):
+        res.disagree(f"{form} graph after the history", [a for a in g["arcs"] if a not in mg["arcs"]][:3], [a for a in mg["arcs"] if a not in g["arcs"]][:3])
+    msol = parts[-1].split()
+    isol = None if o.feasible_solution is None else [F(v) for v in np.asarray(o.feasible_solution).ravel()]
+    msolv = None if msol == ["none"] else [Fraction(t) for t in msol[1:]]
+    if isol != msolv:
+        res.disagree(f"{form} stored solution after the history", isol, msolv)
+
+
 def run_case(case, drv):
     res = Result(key=core.case_key(case))
     form = case["form"]
@@ -132,4 +191,5 @@ def run_case(case, drv):
         if res.failures:
             break
     res.nontrivial = query_before and changed
+    correspond_cache(res, drv, case)
     return res
